@@ -207,7 +207,7 @@ class NeuralStateBase(abc.ABC):
         :type metadata: dict
         """
         # add extra metadata to dictionary before saving it to disk
-        metadata = metadata if metadata else {}
+        metadata = dict(metadata) if metadata else {}
 
         if hasattr(self, "unitary_dict"):
             if "unitary_dict" in metadata.keys():
